@@ -42,6 +42,45 @@ QUAD_TOL = {(True, True): {16: 1e-2, 18: 4e-3, 20: 2.5e-3}, (True, False): {16: 
             (False, True): {16: 6e-2, 18: 3.5e-2, 20: 2e-2}, (False, False): {16: 1.2e-2, 18: 5e-3, 20: 2e-3}}
 
 
+def regen():
+    """Props/C01.lean bridges the constructor (Gen/Src/C01), throw (Gen/Src/C02) and the estimator (Gen/Src/C03): all three
+    are regenerated from the working tree"""
+    import srctie
+    out = {}
+    for p in ("C01", "C02", "C03"):
+        out.update(srctie.regen(p))
+    return out
+
+
+def src_init(ctx, g, c):
+    """`RegionGeom.__init__` as translated from the source (Gen/Src/C01.lean) at Float next to the real constructor; the
+    locals the translation also exports (horizon angle, density normalisations) are not attributes of the object: not compared"""
+    import srctie
+    alt, lat, lon, limb, cone, azi = g._verif_cfg
+    real = [g.earth_radius, g.earth_rad_2, g.core_alt, g.minLOSpathLen, g.maxLOSpathLen, g.sinOfMaxThetaTrSubV, g.maxPhiS, g.minPhiS,
+            g.mcnorm, g.detLat, g.detLong]
+    # Lmin = D cos(a) - sqrt(R^2 - (D sin a)^2) cancels at low altitude: absolute scale D; mcnorm inherits it through the bracket
+    D = float(g.core_alt)
+    atol = [0.0, 0.0, 0.0, 1e-12 * D, 0.0, 0.0, 0.0, 0.0, 1e-9 * abs(float(g.mcnorm)), 0.0, 0.0]
+    srctie.compare(ctx, "C01", "init", [np.array([x]) for x in (alt, limb, cone, azi, lat, lon)],
+                   [np.array([float(x)]) for x in real] + [None] * 7, rtol=1e-12, atol=atol + [0.0] * 7)
+
+
+def src_mcintegral(ctx, g, costheta, got, real_geo_terms=None):
+    """`RegionGeom.mcintegral` as translated from the source (Gen/Src/C03.lean, reductions split) at Float next to the real
+    call `g.mcintegral(ones, costheta, ones, 0.0, 1.0, 1.0)` whose result is `got`"""
+    import srctie
+    m = np.asarray(g.event_mask, dtype=bool)
+    k = int(m.sum())
+    ones = np.ones(k)
+    cols = [ones, np.broadcast_to(np.asarray(costheta, dtype=np.float64), (k,)), ones, np.float64(0.0), np.float64(1.0), np.float64(1.0),
+            g.costhetaTrSubN[m], g.costhetaNSubV[m], g.costhetaTrSubV[m], np.ones(k, dtype=bool), np.float64(g.mcnorm),
+            np.float64(len(g.betaTrSubN))]
+    srctie.compare_split(ctx, "C03", "mcDiffuse", cols,
+                         [np.sum, np.sum, lambda x: np.var(x, ddof=1), np.count_nonzero], [got[0], got[1], got[2], got[3]],
+                         real_terms=None if real_geo_terms is None else [real_geo_terms, None, None, None], rtol=1e-12)
+
+
 def geo_weights(g):
     """per-event geometric factors of the real mcintegral for the kept events of the last throw (one-hot cone cut)"""
     k = int(np.count_nonzero(g.event_mask))
@@ -106,6 +145,7 @@ def pointwise(ctx, c, nev):
     ctx.case(("mcnorm", c), {"op": "RegionGeom.__init__", "cfg": list(c), "mcnorm": float(g.mcnorm)} if len(ctx.samples) < 1 else None)
     if not close(m["mcnorm"], g.mcnorm, 1e-9):
         ctx.disagree("C01.mcnorm", {"cfg": list(c), "model": m["mcnorm"], "code": float(g.mcnorm)})
+    src_init(ctx, g, c)
     want = float(R * R / (nm["theta"] * nm["phiTr"] * nm["phiS"] * nm["thetaS"]))
     if not close(g.mcnorm, want, 1e-8):
         ctx.violation("RegionGeom.__init__", "mcnorm", f"mcnorm = {float(g.mcnorm)!r} but R^2 / prod(1/integral of each sampling density) = {want!r}",
@@ -125,6 +165,8 @@ def pointwise(ctx, c, nev):
     mask = np.asarray(g.event_mask, dtype=bool).copy()
     w = np.zeros(nev)
     w[mask] = geo_weights(g)
+    if mask.any():
+        src_mcintegral(ctx, g, -1.0, g.mcintegral(np.ones(int(mask.sum())), -1.0, np.ones(int(mask.sum())), 0.0, 1.0, 1.0), w[mask])
     ch = cfg_hex(g)
     lines = []
     for i in range(nev):
@@ -202,7 +244,9 @@ def pointwise(ctx, c, nev):
             continue
         if ct is None:
             ct = float(g.costhetaTrSubV[g.event_mask][0])  # an event exactly on the cut is NOT cut (strict <)
-        code = g.mcintegral(np.ones(k), ct, np.ones(k), 0.0, 1.0, 1.0)[1]
+        got_ = g.mcintegral(np.ones(k), ct, np.ones(k), 0.0, 1.0, 1.0)
+        code = got_[1]
+        src_mcintegral(ctx, g, ct, got_)
         o = run_driver([f"geomcint {ch} {f2h(ct)} {nb} {fh(ub.T)}"])[0]
         ctx.case(("batch", c[0], c[4], tag), None)
         ctx.count("batch:" + tag)
